@@ -223,8 +223,8 @@ PASSES = {"p1": {"defines": ["P1"], "modes": ["m2"]}, "t-a": {"defines": ["TA"]}
           "f1": {"defines": ["F1"]}, "f2": {"defines": ["F2"], "modes": ["m1"]},
           "a1": {"defines": ["A1"]}, "a2": {"defines": ["A2"], "include_paths": ["/a2"]}, "a3": {"defines": ["A3"], "modes": ["m1", "m2"]}}
 ARGS = [["-fm1"], ["-fp1"], ["-fdef"], ["-ftargets=a,b"], ["-ftargets=b"], ["-farch=x2"], ["-farch=x1x3"], ["--arch", "x2"], ["-finc=/q:/r"],
-        ["-DU"], ["-unknown"], ["-I", "/i"], ["-ffeat=f2"]]
-OPTION_SETS = [[], ["-DIMPL"], ["-fm1"], ["-DIMPL", "-farch=x3"]]
+        ["-DU"], ["-unknown"], ["-I", "/i"], ["-ffeat=f2"], ["-D", "V"]]
+OPTION_SETS = [[], ["-DIMPL"], ["-fm1"], ["-DIMPL", "-farch=x3"], ["-I", "/oi", "-D", "IMPL2"]]      # the last one: implicit options in two-token form
 
 
 def toml_list(xs):
